@@ -428,6 +428,13 @@ L.hooks['setitem_kind:abs_vars'] = vars_setitem
 L.hooks['contains'] = vars_contains
 L.hooks['delitem'] = vars_delitem
 L.hooks['method_kind:abs_vars'] = vars_method
+def clist_truth(ex, st, ref):
+    # a list is true iff it is non-empty iff some constraint occurs in it
+    c = z3.Const(ex.fresh('c'), C)
+    return z3.Exists([c], z3.Select(st.heap[ref.oid].f['cnt'], c) > 0)
+
+
+L.hooks['truth_kind:abs_clist'] = clist_truth
 L.hooks['method_kind:abs_clist'] = clist_method
 L.hooks['inplace_kind:abs_clist'] = clist_inplace
 L.hooks['method_kind:abs_func'] = func_method
